@@ -56,7 +56,8 @@ def compare_val():
 
 
 def binary_expression():
-    return field_specifier, ["==", "!=", "^=", "$=", "~=", ">", ">=", "<", "<=", "&"], compare_val
+    # Ordered choice, the longer operators have to come before their prefixes
+    return field_specifier, ["==", "!=", "^=", "$=", "~=", ">=", ">", "<=", "<", "&"], compare_val
 
 
 def term():
